@@ -166,13 +166,13 @@ def _post_file_job(args):
     try:
         text = gen_inputs.read_text(path)
         if variant != "orig":
-            text = gen_inputs.variant(text, random.Random("var/%s/%s/%s" % (path, variant, vseed)), variant)
+            text = gen_inputs.variant(text, random.Random("var/%s/%s/%s" % (common.rel(path), variant, vseed)), variant)
         cla, oc = _post_file_job.cfg
         o = vsgrun.parse(vsgrun.text_to_lines(text), cla, oc)
     except BaseException:  # noqa: BLE001 - unparsable variant
         return []
     toks = list(o.lAllObjects)
-    rng = random.Random("post/%s/%s/%s" % (path, variant, vseed))
+    rng = random.Random("post/%s/%s/%s" % (common.rel(path), variant, vseed))
     cases = [toks]
     n = len(toks)
     for _ in range(nwin):
